@@ -47,7 +47,7 @@ func main() {
 		"non-trivial = a Push or Tag of another goroutine overlapped a GC call and some Tag succeeded")
 	r.Assume("concurrent model is relaxed where the statement is silent: a Push linearized onto the same bytes already present may return nil or already-exists / duplicate-name; an Untag linearized onto an untagged reference may return nil or not-found")
 	r.Assume("Predecessors is compared at quiescence only (documented as not snapshot-consistent); in the sequential phase it is compared after every step")
-	r.Assume("unjudged: file-store descriptor whose name is held by other bytes (only 'never wrong bytes' is demanded); oci Delete of bytes that are tagged under another media type; AutoGC off (C09)")
+	r.Assume("unjudged: file-store descriptor whose name is held by other bytes (only 'never wrong bytes' is demanded); AutoGC off (C09). Tag is handed descriptor variants of pushed content (annotations, artifactType, platform; on the digest-keyed oci store also another media type); oci Delete removes every reference naming the digest")
 
 	tmp, err := os.MkdirTemp("", "verif-c06-run-")
 	if err != nil {
